@@ -10,6 +10,7 @@ NI = ('recompute_edge', 'detect_bursts_cycles', 'compute_amp_consistency', 'comp
 
 
 def check(rep, model, tier):
+    _doc_defaults(rep, model)
     rep.rule('EDGES-DEF', 'recompute_edges == reference (sa/refspec/edges.py): copy of the table; k-th transition of is_burst: even -> cycle before the burst '
                           'recomputed looking "next", odd -> cycle after (transition+1) looking "last"; then detect_bursts_cycles(edited table, **threshold_kwargs) is returned')
     rep.rule('EDGE-DEF', 'recompute_edge(table, c, direction) changes exactly the cells (c, amp_consistency) and (c, period_consistency), to element 1 of the '
@@ -115,3 +116,8 @@ def obj_front_end(rep, model):
                           found=f'writes self.{bad + assigned}: ' + '; '.join(c for _, c, _v in hits[:3]))
         else:
             rep.ok('OBJ-RECOMPUTE', f'{short}.{name}:settings stable', site, found='stored thresholds / options are not written')
+
+
+def _doc_defaults(rep, model):
+    from . import common as _c
+    _c.doc_defaults(rep, model, ['recompute_edges'])
